@@ -212,7 +212,7 @@ def dictDel {α} (k : String) : List (String × α) → List (String × α)
 def effProps (name : String) (pm : PropMap) (kw : Props) : Props :=
   let base := (pm.lookup name).getD {}
   let merged := pm.foldl (fun acc kv =>
-    if kv.1.contains '*' && globMatch kv.1.toList name.toList then acc.update kv.2 else acc) base
+    if kv.1.toList.contains '*' && globMatch kv.1.toList name.toList then acc.update kv.2 else acc) base
   merged.update kw
 
 /-- … and the merged result is written back into the map (`props` is the dict stored there) -/
@@ -346,6 +346,14 @@ def fullArr (s : Cache) (name : String) : Except Err (List Val) × Cache :=
   | (.ok _, s') => (.error .type, s')
   | (.error e, s') => (.error e, s')
 
+/-- `str.split(sep)` for a one-character separator, structurally recursive (kernel-evaluable) -/
+def splitChars (sep : Char) : List Char → List Char → List (List Char)
+  | [], cur => [cur.reverse]
+  | c :: cs, cur => if c = sep then cur.reverse :: splitChars sep cs [] else splitChars sep cs (c :: cur)
+
+def splitOnChar (s : String) (sep : Char) : List String :=
+  (splitChars sep s.toList []).map String.ofList
+
 def addVal : Val → Val → Val
   | .num a, .num b => .num (a + b)
   | _, _ => .nan
@@ -359,7 +367,7 @@ def runVirt (s : Cache) (name : String) : Virt → Option (Except Err (List Val)
   | .mjd => if name = "Timestamps/mjd" then
       some (.ok (s.dumps.map fun t => Val.app "mjd" (.num t)), s) else none
   | .azel =>
-    match name.splitOn "/" with
+    match splitOnChar name '/' with
     | ["Antennas", ant, which] =>
       if ant ≠ "" ∧ (which = "az" ∨ which = "el") then
         let src := ant ++ "_pos_actual_scan_" ++ (if which = "az" then "azim" else "elev")
@@ -369,7 +377,7 @@ def runVirt (s : Cache) (name : String) : Virt → Option (Except Err (List Val)
       else none
     | _ => none
   | .sum =>
-    match name.splitOn "/" with
+    match splitOnChar name '/' with
     | ["Calc", a, "plus", b] =>
       if a ≠ "" ∧ b ≠ "" then
         match fullArr s a with
